@@ -194,6 +194,16 @@ fn main() {
             a0 += step;
         }
     }
+    // sweeps too small to be resolved (the two border lines coincide or nearly coincide): a single ray, never the ray
+    // on the opposite side of the centre.  Start angles on the axes, on the diagonals and in between.
+    for &dia in &[9u32, 21, 40] {
+        for a in (0..360).step_by(15) {
+            for (k, swm) in [1, 3, 10, 20, 25, 30, 45, 60, -1, -10, -25, -30, -60].iter().enumerate() {
+                let kind = if (a / 15 + k) % 2 == 0 { "sector" } else { "arc" };
+                run_case(&mut rec, &json!({"t":"ang","shape":{"k":kind,"tl":[-5, 4],"d":dia,"a0":(a as i32 - 180) * 16,"sw":0,"swm":swm}}));
+            }
+        }
+    }
     // full sweeps (exactly +-360 degrees and a little more) from start angles well outside 0..360, larger diameters:
     // the >= 360 decision is made in floating point
     {
